@@ -302,7 +302,7 @@ def gen_c17(g, run_seed, tier, opts):
     for _ in range(cfg["nsteps"]):
         u = g.random()
         if u < cfg["user_p"]:
-            kind = g.choice(["draw", "draw", "draw", "reseed", "getstate", "setstate", "loglevel"])
+            kind = g.choice(["draw", "draw", "draw", "draw", "reseed", "getstate", "setstate", "loglevel", "seterr", "warnfilter"])
             if kind == "draw":
                 act = ["draw", g.choice(["rand", "randn", "normal", "randint", "permutation", "shuffle", "random"]),
                        g.randint(1, 6)]
@@ -310,6 +310,10 @@ def gen_c17(g, run_seed, tier, opts):
                 act = ["reseed", g.randrange(2**32)]
             elif kind == "loglevel":
                 act = ["loglevel", g.choice(["DEBUG", "INFO", "WARNING", "ERROR"])]
+            elif kind == "seterr":
+                act = ["seterr", g.choice(["raise", "warn", "ignore"])]
+            elif kind == "warnfilter":
+                act = ["warnfilter", g.choice(["error", "ignore", "default", "always"])]
             else:
                 act = [kind]
             add({"op": "user", "act": act, "slot": "s%d" % g.randint(0, 1)})
